@@ -175,7 +175,7 @@ def run(ctx, model=None):
     rng = random.Random(ctx.seed * 553105253 + 9)
     from props.c10 import example_games
     bases = [g for g in example_games() if len(g["players"]) <= 12][:3]
-    for _ in range(3 if ctx.quick() else 25):
+    for _ in range(3 if ctx.quick() else 150):
         bases.append(gen.stopping_game(rng, n_inner=rng.randint(2, 5)))
     ok_games = solvable_pair()
     for bi, b in enumerate(bases):
